@@ -21,7 +21,69 @@ func init() {
 }
 
 // c01Case: Convert returns nil error without panic; Parse+Render on the same instance gives nil and the same bytes.
+// c01Guard watches every conversion made through c01Case, whichever sub-check it belongs to: a goroutine cannot be
+// killed, so a conversion that is still running after the limit is reported (with its input) and the run ends there.
+type c01Slot struct {
+	mu    sync.Mutex
+	busy  bool
+	since time.Time
+	input []byte
+	sub   *core.Sub
+	cfg   string
+}
+
+var (
+	c01Slots     sync.Map // *core.Conv -> *c01Slot (one converter per worker)
+	c01GuardOnce sync.Once
+)
+
+func c01StartGuard(r *core.Run, limit time.Duration) {
+	c01GuardOnce.Do(func() {
+		go func() {
+			for {
+				time.Sleep(500 * time.Millisecond)
+				now := time.Now()
+				c01Slots.Range(func(_, v any) bool {
+					sl := v.(*c01Slot)
+					sl.mu.Lock()
+					stuck := sl.busy && now.Sub(sl.since) > limit
+					var in []byte
+					var sub *core.Sub
+					var cfg string
+					d := now.Sub(sl.since)
+					if stuck {
+						in, sub, cfg = append([]byte{}, sl.input...), sl.sub, sl.cfg
+					}
+					sl.mu.Unlock()
+					if stuck {
+						sub.Violate("hang", cfg, in, nil, fmt.Sprintf("conversion still running after %s (limit far above the µs–ms a correct run needs)", d.Round(time.Second)), "termination", "no return")
+						sub.Incomplete("aborted: a conversion did not terminate")
+						os.Exit(r.Finish())
+					}
+					return true
+				})
+			}
+		}()
+	})
+}
+
 func c01Case(s *core.Sub, cv *core.Conv, word []byte) (out []byte) {
+	var sl *c01Slot
+	if v, ok := c01Slots.Load(cv); ok {
+		sl = v.(*c01Slot)
+	} else {
+		sl = &c01Slot{cfg: cv.Cfg.String()}
+		c01Slots.Store(cv, sl)
+	}
+	sl.mu.Lock()
+	sl.busy, sl.since, sl.sub = true, time.Now(), s
+	sl.input = append(sl.input[:0], word...)
+	sl.mu.Unlock()
+	defer func() {
+		sl.mu.Lock()
+		sl.busy = false
+		sl.mu.Unlock()
+	}()
 	out, err, pan := cv.Convert(word)
 	cfg := cv.Cfg.String()
 	if pan != nil {
@@ -66,6 +128,7 @@ func hangReporter(r *core.Run, s *core.Sub, cfg string) func(int, string, []byte
 
 func runC01(r *core.Run) {
 	limit := core.Pick(r, 40*time.Second, 180*time.Second)
+	c01StartGuard(r, core.Pick(r, 60*time.Second, 240*time.Second))
 	specs := []alphaSpec{
 		{"block", core.ABlock, 5, 6, []string{"core", "all+cjk+autoid+attr+unsafe+xhtml", "gfm+hardwraps"}},
 		{"inline", core.AInline, 4, 5, []string{"core", "all+cjk+autoid+attr+unsafe+xhtml", "typographer"}},
@@ -334,6 +397,7 @@ func famWorker(exe, alpha string, n int, cfg string, start, stride int, limit ti
 		case ln, ok := <-lines:
 			if !ok {
 				err := cmd.Wait()
+				core.Progress.Add(1)
 				if cur >= 0 {
 					c := cases[cur]
 					tail := stderr.String()
